@@ -248,6 +248,11 @@ public:
         if (auto *ME = dyn_cast<MemberExpr>(strip(X->getCallee()))) {
           StmtIds[ME] = id;
           if (ME->isArrow()) O["arrow"] = true;
+          if (ME->hasQualifier()) {
+            // Base::m(): statically bound, no virtual dispatch
+            O["qual"] = true;
+            O.erase("virt");
+          }
         }
       } else {
         // pointer-to-member call: (obj.*pm)(...)
